@@ -1010,6 +1010,8 @@ DIRECTED = {
           _CUE + "<rrt></r><ruby><rt>\nx\n", _CUE + "<rt>x\n", _CUE + "<ruby><ruby>x\n", _CUE + "<b><ruby>x<rt>y</rt></ruby></b>\n", _CUE + "<ruby>a<b>b</b><rt>y</rt></ruby>\n",
           _CUE + "<ruby>a\nb<rt>y</rt></ruby>\n", _CUE + "<ruby>a<00:00:01.500>b<rt>y</rt></ruby>\n", _CUE + "<ruby>a<rt>y</rt></ruby>\n",
           "WEBVTT\n\n00:00:01.000 --> 00:00:02.000 size:" + "9" * 400 + "%\nx\n",
+          "WEBVTT\n\n00:01.000 --> 00:20.000\n" + "".join(f"<00:{2 + k % 10:02d}.000>w" for k in range(1100)) + "\n",
+          "WEBVTT\n\n00:01.000 --> 00:20.000\n" + "<b><i><u><c.red><lang en><v x>" * 200 + "x\n",
           "WEBVTT\n\n00:00.040 --> " + "01" * 200 + ":00:00.000\nx\n", "WEBVTT\n\n" + "9" * 330 + ":00:00.000 --> " + "9" * 330 + ":00:00.001\nx\n", "WEBVTT\n\n00:00:01.000 --> 00:00:02.000\n\n00:00:03.000 --> 00:00:04.000\n\n"],
   "scc": [("Scenarist_SCC V1.0\n\n00:00:01:00\t9425 9425 94ad 94ad c1c2\n\n00:00:02:00\t942c 942c 1320 1320\n", None), ("Scenarist_SCC V1.0\n\n00:00:01:00\t9723 9723 c8e9\n", None),
           ("Scenarist_SCC V1.0\n\n00:00:01:00\t9429 9429 9723 9723 c8e9\n", None), ("Scenarist_SCC V1.0\n\n00:00:01:00\t94a1 94a1\n", None),
